@@ -11,6 +11,7 @@
   accessor step (`setIn_key_lookup`, `removeIn_key_lookup`).
 -/
 import Minidyn.Model.Eval
+import Minidyn.Model.Interp
 import Minidyn.Lemmas.Assoc
 namespace Minidyn
 open Eval
@@ -454,6 +455,64 @@ theorem delete_from_missing (env : Env) (t : Token) (v : Obj) (h : evalIdentifie
   simp [evalAction, h, bind, Except.bind, Obj.undefined, pure, Except.pure]
 theorem delete_string (xs : List Bytes) (s : Bytes) :
     deleteFrom (.sset xs) (.str s) = .ok (.sset (xs.filter (· != s))) := rfl
+
+/-! ### the frame at `Language.Update` -/
+
+theorem load_modified : ∀ (kvs : List (Bytes × AV)) (e e' : Env), e.load kvs = some e' → e'.modified = e.modified ∧ e'.aliases = e.aliases := by
+  intro kvs
+  induction kvs with
+  | nil => intro e e' h; simp only [Env.load, Option.some.injEq] at h; subst h; exact ⟨rfl, rfl⟩
+  | cons p rest ih =>
+    intro e e' h
+    obtain ⟨k, v⟩ := p
+    simp only [Env.load, bind, Option.bind] at h
+    cases hv : v.toObj with
+    | none => simp [hv] at h
+    | some o =>
+      simp only [hv] at h
+      have := ih _ e' h
+      exact ⟨this.1, this.2⟩
+
+theorem mkEnv_clean (names : List (Bytes × Bytes)) (item values : Item) (env : Env) (h : Interp.mkEnv names item values = some env) :
+    env.modified = [] ∧ env.aliases = names := by
+  unfold Interp.mkEnv at h
+  simp only [bind, Option.bind] at h
+  cases h1 : Env.load { aliases := names } item with
+  | none => simp [h1] at h
+  | some e1 =>
+    simp only [h1] at h
+    have a := load_modified item _ e1 h1
+    have b := load_modified values e1 env h
+    exact ⟨b.1.trans a.1, b.2.trans a.2⟩
+
+/-- **C07 at the interpreter**: after `Language.Update`, an attribute of the item changes only if it is (through
+    ExpressionAttributeNames) the root of the left-hand side of one of the actions of the expression -/
+theorem langUpdate_frame (expr : Bytes) (item item' : Item) (names : List (Bytes × Bytes)) (values : Item) (name : Bytes)
+    (h : Interp.langUpdate expr item names values = .ok item')
+    (hname : ∀ tok acts env, Parser.parseUpdate expr = .ok (.update tok acts) → Interp.mkEnv names item values = some env →
+      ∀ a ∈ acts, ∀ op left right, a = Expr.action op left right → ∀ n, targetOf env left = some n → env.itemName n ≠ name) :
+    alookup name item' = alookup name item := by
+  unfold Interp.langUpdate at h
+  cases hp : Parser.parseUpdate expr with
+  | syntaxErr => simp [hp] at h
+  | outOfFuel => simp [hp] at h
+  | ok e =>
+    simp only [hp] at h
+    cases hm : Interp.mkEnv names item values with
+    | none => simp [hm] at h
+    | some env =>
+      simp only [hm] at h
+      cases he : Eval.evalUpdate env e with
+      | error x => simp [he] at h
+      | ok env' =>
+        simp only [he, Except.ok.injEq] at h
+        subst h
+        have hclean := (mkEnv_clean names item values env hm).1
+        cases e with
+        | update tok acts =>
+          exact update_frame env env' tok acts item _ name hclean he (fun a ha op left right hact n hn => hname tok acts env hp hm a ha op left right hact n hn)
+        | _ => simp [Eval.evalUpdate] at he
+
 
 /-! ### non-vacuity: `SET a = b, b = a` swaps, reading the pre-update values -/
 
